@@ -143,6 +143,7 @@ func checkC10(c *Ctx) {
 	// handed to the WIN_CERTIFICATE reader, and type GUID / data derive from the consumed body
 	if ru != nil {
 		okUse, detUse := true, ""
+		consumeUndecided := ""
 		var fP *ssa.Parameter
 		for _, p := range ru.Params {
 			if ir.NamedTypeID(p.Type()) == "io.Reader" {
@@ -156,6 +157,39 @@ func checkC10(c *Ctx) {
 				call, isCall := r.(*ssa.Call)
 				if !isCall {
 					if _, isDbg := r.(*ssa.DebugRef); isDbg {
+						continue
+					}
+					// kept in a reader object (a field store, possibly boxed first): who reads
+					// from that object is not followed by this rule
+					carried := false
+					var follow func(v ssa.Value, depth int)
+					follow = func(v ssa.Value, depth int) {
+						if v == nil || v.Referrers() == nil || depth > 3 {
+							return
+						}
+						for _, rr := range *v.Referrers() {
+							switch y := rr.(type) {
+							case *ssa.Store:
+								if _, isFA := y.Addr.(*ssa.FieldAddr); isFA && y.Val == v {
+									carried = true
+								}
+							case *ssa.MakeInterface:
+								follow(y, depth+1)
+							case *ssa.ChangeInterface:
+								follow(y, depth+1)
+							}
+						}
+					}
+					if st, isSt := r.(*ssa.Store); isSt {
+						if _, isFA := st.Addr.(*ssa.FieldAddr); isFA {
+							carried = true
+						}
+					}
+					if v, isV := r.(ssa.Value); isV {
+						follow(v, 0)
+					}
+					if carried {
+						consumeUndecided = "the input stream is kept in a reader object at " + c.IPos(r)
 						continue
 					}
 					okUse, detUse = false, "the input stream is used at "+c.IPos(r)+" other than by handing it to the WIN_CERTIFICATE reader"
@@ -200,7 +234,11 @@ func checkC10(c *Ctx) {
 				}
 			}
 		}
-		c.R.Check(okUse, "G1.consume", name(ru), "declared-length-only", c.Pos(ru.Pos()), "decoding consumes exactly the declared length: the stream is read only through the WIN_CERTIFICATE reader, type GUID and data come from the consumed body", detUse)
+		if consumeUndecided != "" {
+			c.R.Infof("G1.consume", name(ru), "declared-length-only", c.Pos(ru.Pos()), "not decided for this shape: "+consumeUndecided+" (G12.exact still excludes read-ahead consumers on the stream)")
+		} else {
+			c.R.Check(okUse, "G1.consume", name(ru), "declared-length-only", c.Pos(ru.Pos()), "decoding consumes exactly the declared length: the stream is read only through the WIN_CERTIFICATE reader, type GUID and data come from the consumed body", detUse)
+		}
 	}
 	// G3: nothing emitted twice
 	if wu != nil {
